@@ -305,14 +305,15 @@ def run(ctx):
                        time_cap=ctx.budget_s * 0.85)
     ctx.log('swept %d/%d chunks, %d calls, %.1fs'
             % (res.chunks_done, res.chunks_total, res.cases, res.wall_s))
-    if res.nontrivial == 0:
+    silent = not res.violations     # only a silent run can be vacuous
+    if silent and res.nontrivial == 0:
         raise m.HarnessError('vacuous run: per-trait accounting never reached')
-    if res.counters.get('observed_accept', 0) == 0 or \
+    if silent and (res.counters.get('observed_accept', 0) == 0 or \
             res.counters.get('expected_accept', 0) == 0 or \
             res.counters.get('expected_reject_capacity', 0) == 0 or \
-            res.counters.get('expected_reject_trait', 0) == 0:
+            res.counters.get('expected_reject_trait', 0) == 0):
         raise m.HarnessError('vacuous run: %r' % dict(res.counters))
-    if res.exhaustive:
+    if res.exhaustive and silent:
         for name in ('C_verdict_differs_if_read_all-binary',
                      'C_verdict_differs_if_read_all-decimal',
                      'C_stored_decimal-suffix', 'C_stored_plain-bytes',
